@@ -90,3 +90,68 @@ func verifPrincipalsSpec(invIss, invSub did.DID, links []verifLink) bool {
 	}
 	return spec
 }
+
+// verifConformingLinks returns n links (0 = leaf ... n-1 = root) whose
+// principals satisfy the delegation rules for subject did(0) and invoker did(1).
+func verifConformingLinks(n int) (invIss, sub did.DID, links []verifLink) {
+	sub = did.VerifDID(0)
+	p := func(i int) did.DID {
+		if i == n {
+			return sub
+		}
+		return did.VerifDID(byte(i + 1))
+	}
+	for i := 0; i < n; i++ {
+		links = append(links, verifLink{iss: p(i + 1), aud: p(i), sub: sub, cmd: command.Top(), loadable: true})
+	}
+	return p(0), sub, links
+}
+
+// verifSegs: reference segmentation of a command text (forks on '/' positions only).
+func verifSegs(s string) []string {
+	if len(s) == 1 {
+		return nil
+	}
+	var segs []string
+	start := 1
+	for i := 1; i < len(s); i++ {
+		if s[i] == '/' {
+			segs = append(segs, s[start:i])
+			start = i + 1
+		}
+	}
+	return append(segs, s[start:])
+}
+
+// verifSegPrefix: a is a prefix of b as segment lists (contents compared as terms).
+func verifSegPrefix(a, b []string) bool {
+	if len(a) > len(b) {
+		return false
+	}
+	r := true
+	for i := range a {
+		r = vAnd(r, vEqStr(a[i], b[i]))
+	}
+	return r
+}
+
+// verifValidCmdText: the command grammar as a term (ASCII bound).
+func verifValidCmdText(s string) bool {
+	ok := s[0] == '/'
+	if len(s) > 1 {
+		ok = vAnd(ok, s[len(s)-1] != '/')
+	}
+	for i := 0; i < len(s); i++ {
+		ok = vAnd(ok, s[i] < 0x80)
+		ok = vAnd(ok, vNot(vAnd(s[i] >= 'A', s[i] <= 'Z')))
+	}
+	return ok
+}
+
+func verifCids(n int) []cid.Cid {
+	var out []cid.Cid
+	for i := 0; i < n; i++ {
+		out = append(out, verifCid(i))
+	}
+	return out
+}
